@@ -7,6 +7,8 @@ import Abnf.RefSem
 import Abnf.Cache
 import Abnf.Visitor
 import Abnf.Compile
+import Abnf.Registry
+import Abnf.CompileTree
 namespace Abnf.Ext
 
 def nats (l : List String) : List Nat := l.map String.toNat!
@@ -21,6 +23,7 @@ def showRRes : RRes → String
 structure XState where
   gen : Nat := 0                              -- ParseCache.generation
   caches : Array (PCache Nat Nat) := #[]      -- live caches, by index
+  reg : Registry.Reg String := ⟨[], [], 0⟩     -- the rule registry model (definitions are symbolic strings)
 
 def showCache (g : Nat) (c : PCache Nat Nat) : String :=
   let (ks, c) := PCache.keys g c
@@ -131,10 +134,42 @@ def handleCompile (toks : List String) : Option String :=
     some (String.intercalate " " ((Compile.normaliseLineEnds (nats cps)).map toString))
   | _ => none
 
+def strOf (cps : List Nat) : String := String.ofList (cps.map Char.ofNat)
+
+/-- canonical dump of the registry: the map in insertion order, then the objects -/
+def showReg (σ : Registry.Reg String) : String :=
+  String.intercalate " " (σ.map.map (fun (k, o) => toString k.1 ++ ":" ++ strOf k.2 ++ ":" ++ toString o)) ++ " || " ++
+  String.intercalate " " (σ.heap.map (fun (o, r) => toString o ++ ":" ++ toString r.owner ++ ":" ++ strOf r.name ++ ":" ++
+    (match r.defn with | some d => d | none => "-")))
+
+def regAlt (a b : String) : String := "Alternation(" ++ a ++ ",~" ++ b ++ ")"
+
+/-- `reg reset | init c name d | ref c name | assign c name d | def c name (=|=/) d | get c name` -/
+def handleReg (toks : List String) (x : XState) : Option (String × XState) :=
+  match toks with
+  | ["reset"] => some ("ok", { x with reg := ⟨[], [], 0⟩ })
+  | ["init", c, n, d] =>
+    let (σ, o) := Registry.create x.reg c.toNat! (cpsOf n) (if d == "-" then none else some d)
+    some (toString o, { x with reg := σ })
+  | ["ref", c, n] =>
+    let (σ, o) := Registry.construct x.reg c.toNat! (cpsOf n) none
+    some (toString o ++ " ## " ++ showReg σ, { x with reg := σ })
+  | ["assign", c, n, d] =>
+    let (σ, o) := Registry.construct x.reg c.toNat! (cpsOf n) (some d)
+    some (toString o ++ " ## " ++ showReg σ, { x with reg := σ })
+  | ["def", c, n, op, d] =>
+    let (σ, o) := Registry.define regAlt x.reg c.toNat! (cpsOf n) (if op == "=" then .eq else .inc) d
+    some ((match o with | some o => toString o | none => "none") ++ " ## " ++ showReg σ, { x with reg := σ })
+  | ["get", c, n] =>
+    let o := Registry.get x.reg c.toNat! (cpsOf n)
+    some ((match o with | some o => toString o | none => "none") ++ " ## " ++ showReg x.reg, x)
+  | _ => none
+
 def handle (G : Grammar) (fuel : Nat) (toks : List String) (x : XState) : Option (String × XState) :=
   match toks with
   | "refends" :: r :: i :: cps => some (showRRes (refEnds G fuel (nats cps) (.ref r.toNat!) i.toNat!), x)
   | "cache" :: rest => handleCache rest x
+  | "reg" :: rest => handleReg rest x
   | "xreset" :: _ => some ("reset", {})
   | "treeeq" :: _ => (handleVisitor toks).map (fun o => (o, x))
   | "dispatch" :: _ => (handleVisitor toks).map (fun o => (o, x))
